@@ -164,6 +164,17 @@ def case_C20(seed):
         q_ = G.destination(gp[-1], rnd.uniform(0, 360), leg)
         if abs(q_[0]) > 80:
             q_ = G.destination(gp[-1], 90.0, leg)
+        ax = rnd.random()
+        if ax < 0.15:
+            # gridded / synthetic traces: the next fix has EXACTLY the same latitude (the connection is still the great
+            # circle, which leaves the parallel) ...
+            dlon = min(80.0, math.degrees(leg / (G.R * max(0.05, math.cos(math.radians(gp[-1][0])))))) * rnd.choice([1.0, -1.0])
+            lo = gp[-1][1] + dlon
+            q_ = (gp[-1][0], lo - 360.0 if lo > 180.0 else (lo + 360.0 if lo <= -180.0 else lo))
+        elif ax < 0.25:
+            # ... or exactly the same longitude (a meridian is a great circle)
+            la = gp[-1][0] + min(60.0, math.degrees(leg / G.R)) * rnd.choice([1.0, -1.0])
+            q_ = (max(-80.0, min(80.0, la)), gp[-1][1])
         gp.append(q_)
     glens = [G.gc_distance(a, b) for a, b in zip(gp, gp[1:])] or [1.0]
     gdd = max(glens) * 10 ** rnd.uniform(-2, 1)
